@@ -214,7 +214,12 @@ PLANS: dict[str, Plan] = {
     "C01": IterationPlan(eager=True),
     "C04": CommutePlan(),
     "C05": MergePlan(),
-    "C06": CombinedPlan(IterationPlan(eager=True, quick=900, thorough=30000), SqlPlan(quick=300, thorough=6000)),
+    "C06": CombinedPlan(IterationPlan(eager=True, quick=900, thorough=30000), SqlPlan(quick=300, thorough=6000),
+                        SimplePlan("prog_shortcuts", 250, 6000,
+                                   "chains with statically empty / join-identity / zero-column operands, joins with a "
+                                   "join identity, in one engine and across engines, processed by a real Processor and "
+                                   "executed (the short-cuts keyed on static metadata must not change a result)",
+                                   "the tree contains a chain or a join")),
     "C12": PredicatePlan(with_sql=True),
     "C13": PredicatePlan(),
     "C18": IterationPlan(eager=False, quick=1500),
